@@ -263,10 +263,11 @@ def harnesses(tier):
     q = tier == "quick"
     n = 2 if q else 3
     hs = [Convert("lod", ["f", "T"], n), Convert("lod", ["i", "b"], n), Convert("json", ["f", "T"], n), Convert("json", ["i", "b"], n)]
-    hs += [Convert("json", ["D", "us"], 2)]
+    hs += [Convert("json", ["D", "us"], 2), Convert("lod", ["U", "i"], 2), Convert("json", ["U", "b"], 2)]
     if not q: hs += [Convert("lod", ["D", "us"], n)]
     for kind in ("pandas", "arrow"):
         hs.append(Export(kind, ["T", "f"], n))
+        hs.append(Export(kind, ["U", "i"], 2))
         hs.append(Export(kind, ["i", "b"] if q else ["i", "b", "D"], n))
         if not q: hs.append(Export(kind, ["us", "td"], n))
         hs.append(Import(kind, ["T", "f"], n))
